@@ -313,7 +313,7 @@ func Array[V any](arguments ...any) col.ArrayLike[V] {
 		var index int = 1 // Array indices are ordinals, they start at one.
 		var iterator = collection.GetIterator()
 		for iterator.HasNext() {
-			var value = iterator.GetNext().(V)
+			var value = asType[V](iterator.GetNext())
 			array.SetValue(index, value)
 			index++
 		}
@@ -388,8 +388,8 @@ func Catalog[K comparable, V any](arguments ...any) col.CatalogLike[K, V] {
 		var iterator = collection.GetIterator()
 		for iterator.HasNext() {
 			var association = iterator.GetNext()
-			var key = association.GetKey().(K)
-			var value = association.GetValue().(V)
+			var key = asType[K](association.GetKey())
+			var value = asType[V](association.GetValue())
 			catalog.SetValue(key, value)
 		}
 	default:
@@ -453,7 +453,7 @@ func List[V any](arguments ...any) col.ListLike[V] {
 		// Convert the values to their real type.
 		var iterator = collection.GetIterator()
 		for iterator.HasNext() {
-			var value = iterator.GetNext().(V)
+			var value = asType[V](iterator.GetNext())
 			list.AppendValue(value)
 		}
 	default:
@@ -524,8 +524,8 @@ func Map[K comparable, V any](arguments ...any) col.MapLike[K, V] {
 		var iterator = collection.GetIterator()
 		for iterator.HasNext() {
 			var association = iterator.GetNext()
-			var key = association.GetKey().(K)
-			var value = association.GetValue().(V)
+			var key = asType[K](association.GetKey())
+			var value = asType[V](association.GetValue())
 			map_.SetValue(key, value)
 		}
 	default:
@@ -597,7 +597,7 @@ func Queue[V any](arguments ...any) col.QueueLike[V] {
 		values = make([]V, 0, collection.GetSize())
 		var iterator = collection.GetIterator()
 		for iterator.HasNext() {
-			var value = iterator.GetNext().(V)
+			var value = asType[V](iterator.GetNext())
 			values = append(values, value)
 		}
 		// The capacity must be large enough for all of the values, otherwise
@@ -672,7 +672,7 @@ func Set[V any](arguments ...any) col.SetLike[V] {
 			// Convert the values to their real type.
 			var iterator = collection.GetIterator()
 			for iterator.HasNext() {
-				var value = iterator.GetNext().(V)
+				var value = asType[V](iterator.GetNext())
 				set.AddValue(value)
 			}
 		}
@@ -686,7 +686,7 @@ func Set[V any](arguments ...any) col.SetLike[V] {
 		// Convert the values to their real type.
 		var iterator = collection.GetIterator()
 		for iterator.HasNext() {
-			var value = iterator.GetNext().(V)
+			var value = asType[V](iterator.GetNext())
 			set.AddValue(value)
 		}
 	default:
@@ -761,7 +761,7 @@ func Stack[V any](arguments ...any) col.StackLike[V] {
 		values = make([]V, 0, collection.GetSize())
 		var iterator = collection.GetIterator()
 		for iterator.HasNext() {
-			var value = iterator.GetNext().(V)
+			var value = asType[V](iterator.GetNext())
 			values = append(values, value)
 		}
 		// The first value is the top of the stack, as in the parsed collection,
@@ -774,4 +774,22 @@ func Stack[V any](arguments ...any) col.StackLike[V] {
 		stack = class.Make()
 	}
 	return stack
+}
+
+// PRIVATE FUNCTIONS
+
+/*
+asType converts a value that was parsed from a source string to the type T of
+the values (or keys) of the collection being constructed.  The parsed nil value
+is the zero value of T when T is an interface type, since a collection of such
+values may contain nil.  Any other mismatch panics like a failed type assertion.
+*/
+func asType[T any](value any) T {
+	if value == nil {
+		var zero T
+		if ref.TypeOf(&zero).Elem().Kind() == ref.Interface {
+			return zero
+		}
+	}
+	return value.(T)
 }
